@@ -321,10 +321,15 @@ def flatten_order(rep, idx):
         L = [c.t.loops[next(iter(firsts))]]
         L = L[0]
         it = c.norm(L.iter)
+        keys_only = False
         wants = [c.parse(x) for x in want_iter]
         index_forms = [c.parse("range(len(self))"), c.parse("range(len(self._fields))")]
         if it in wants and not L.reversed:
             rep.ok("C11.6", fi.site, "flatten() walks the fields in declaration order", f"iterates {ir.show(it)}")
+        elif cname == "FieldActionMap" and not L.reversed and L.kind not in ('range', 'enum') and \
+                it in [c.parse(x) for x in ("self", "self._fields", "self.keys()", "self._fields.keys()")]:
+            rep.ok("C11.6", fi.site, "flatten() walks the fields in declaration order", f"iterates the names {ir.show(it)} (iteration order: C11.8)")
+            keys_only = True
         elif it in index_forms and not L.reversed and cname == "FieldActionArray":
             rep.ok("C11.6", fi.site, "flatten() walks the fields in declaration order", f"iterates indices {ir.show(it)} ascending")
         elif L.reversed or (it[0] == 'call' and it[1] in (('name', 'reversed'), ('name', 'sorted'))) or \
@@ -339,6 +344,9 @@ def flatten_order(rep, idx):
         inner = [x for x in c.t.loops.values() if x.id != L.id]
         if L.kind == 'range':
             key = ('idx', L.id)
+            fld_alts = [c.norm(('sub', ('name', 'self'), key)), c.norm(('sub', c.parse("self._fields"), key))]
+        elif keys_only:
+            key = c.norm(('sub', L.seq, ('idx', L.id))) if L.seq is not None else ('item', L.id, ())
             fld_alts = [c.norm(('sub', ('name', 'self'), key)), c.norm(('sub', c.parse("self._fields"), key))]
         elif L.kind == 'enum':
             key = ('idx', L.id)
